@@ -70,6 +70,12 @@ Sensitivity (quick tier, seed 1, scratch copies of tornado/iostream.py; every mu
       after the first failed read against the closed stream - reads of every kind, model = bytes pulled
       before the close minus bytes handed out, may fail but never return short; one case in five ends with
       read_into(big) receiving only a prefix, then reads larger than the prefix, others, and a 1-byte read)
+  M14 read_into: early return for a zero-length caller buffer placed after the "copy buffered data" block
+      (leaves _after_user_read_buffer aliasing the live read buffer; a later read_into larger than what is
+      buffered then makes the following reads return the same bytes again)  -> every seed: part "tiny",
+      C11.wrong_data (deterministic family, 1248 cases: a tiny read - read_into with a 0/1-byte buffer,
+      read_bytes(0/1), each partial or not - in EVERY position of two fixed programs, optionally a second
+      zero-length read_into two reads later, x 3 arrival patterns x read_chunk_size {1, 64})
   (M9 ``>= next_find_pos`` -> ``>`` survives: it only changes how often the buffer is scanned - equivalent.)
 """
 import collections
@@ -91,7 +97,8 @@ RULE = (
     "0 and 1), relative -1/0/+1 to the real delimiter end, or delimiter length -1/0/+1) x FIN|RST at a generated position; every case ends with "
     "a draining read_until_close. non-trivial = a delimiter/regex match straddles two arrivals, or a "
     "result spans >=3 arrivals, or read_into is issued with leftover buffered data, or a delimiter ends "
-    "at max_bytes-1/max_bytes/max_bytes+1; distinct = SHA-1 of the case"
+    "at max_bytes-1/max_bytes/max_bytes+1; distinct = SHA-1 of the case. Part 'tiny': enumerated family of "
+    "1248 programs with a zero-length / 1-byte read in every position"
 )
 ASSUMPTIONS = [
     "MemoryIOStream implements the documented BaseIOStream extension points faithfully (read_from_fd returns "
@@ -436,9 +443,51 @@ def run_case(ctx, case):
     ctx.note(case, labels, nontrivial)
 
 
-PARTS = {"main": run_case}
+# ---- deterministic family: a tiny read (zero-length / 1-byte caller buffer, n = 0 / 1) in EVERY position of
+# fixed read programs, under three arrival patterns and two chunk sizes.  Tiny reads are served by special
+# paths (nothing to wait for, "all from the buffer" branch of read_into) and must leave no state behind
+# that changes what the following reads return.
+TINY = [("into", 0, False), ("into", 0, True), ("bytes", 0, False), ("bytes", 0, True), ("into", 1, False),
+        ("into", 1, True), ("bytes", 1, False), ("bytes", 1, True)]
+TINY_DATA = b"abcdefghij\nklmnopqrstuvwxyz\r\n0123456789:ab\n" + b"x" * 20
+TINY_BASES = [
+    [("bytes", 1, False), ("into", 10, False), ("bytes", 3, False), ("until", 0, None), ("into", 4, False), ("into", 6, True)],
+    [("until", 0, None), ("into", 3, False), ("into", 20, False), ("regex", 1, None), ("bytes", 5, True), ("into", 2, False)],
+]
+
+
+def tiny_family():
+    for bi, base in enumerate(TINY_BASES):
+        for pos in range(len(base) + 1):
+            for tiny in TINY:
+                for second in (None, ("into", 0, False)):  # optionally a second zero-length read two reads later
+                    prog = list(base)
+                    prog.insert(pos, tiny)
+                    if second is not None:
+                        if pos + 2 > len(prog):
+                            continue
+                        prog.insert(pos + 2, second)
+                    for pattern in ("some_first", "one_byte", "all_first"):
+                        for rcs in (1, 64):
+                            steps = []
+                            if pattern == "all_first":
+                                steps.append(("feed", [len(TINY_DATA)]))
+                            elif pattern == "some_first":
+                                steps.append(("feed", [5]))
+                            for sp in prog:
+                                steps.append(("read", sp))
+                                if pattern == "some_first":
+                                    steps.append(("feed", [7]))
+                                elif pattern == "one_byte":
+                                    steps.append(("feed", [1, 1, 1]))
+                            yield {"rcs": rcs, "mbs": None, "data": TINY_DATA, "steps": steps, "end": "fin",
+                                   "tail": [9], "blocked_write": None}
+
+
+PARTS = {"main": run_case, "tiny": run_case}
 
 
 def main(ctx):
     ctx.run_replays(PARTS)
+    ctx.enumerate(tiny_family(), run_case, name="tiny")
     ctx.explore(case_s(), run_case, ctx.n(1500, 150000), name="main")
